@@ -4,6 +4,10 @@ use serde_json::Value;
 pub mod c01;
 pub mod c03;
 pub mod c04;
+pub mod c07;
+pub mod c08;
+pub mod c09;
+pub mod c10;
 
 pub fn bind_or_die() {
     let r = crate::bind::run();
@@ -29,6 +33,10 @@ pub fn run(id: &str, tier: Tier) -> i32 {
         "C01" => { bind_or_die(); c01::run(tier) }
         "C03" => { bind_or_die(); c03::run(tier) }
         "C04" => { bind_or_die(); c04::run(tier) }
+        "C07" => { bind_or_die(); c07::run(tier) }
+        "C08" => c08::run(tier),
+        "C09" => { bind_or_die(); c09::run(tier) }
+        "C10" => { bind_or_die(); c10::run(tier) }
         _ => {
             eprintln!("unknown check {}", id);
             2
@@ -44,6 +52,10 @@ pub fn replay(id: &str, v: &Value) -> i32 {
         "C01" => c01::replay,
         "C03" => c03::replay,
         "C04" => c04::replay,
+        "C07" => c07::replay,
+        "C08" => c08::replay,
+        "C09" => c09::replay,
+        "C10" => c10::replay,
         _ => {
             eprintln!("no replay for {}", id);
             return 2;
